@@ -247,7 +247,19 @@ pub fn evaluate(problem: &api::Problem, matrices: &[api::Matrix], solution: &sol
         // documentation does not say where it goes, so trailing untagged breaks of a shift with required breaks are skipped
         let has_required = shift.breaks.iter().flatten().any(|b| matches!(b, api::VehicleBreak::Required { .. }));
         let last_idx = acts.iter().rposition(|a| !(has_required && a.kind == "break" && a.tag.is_none())).unwrap_or(acts.len() - 1);
-        let last_is_arrival = acts.get(last_idx).is_some_and(|a| a.kind == "arrival");
+        let mut last_is_arrival = acts.get(last_idx).is_some_and(|a| a.kind == "arrival");
+        // With required breaks the writer re-times and re-sorts the activities of a stop (observed: the arrival activity in
+        // front of a job of the same last stop, job8 10:25-10:30, arrival 10:28, job6 10:29). Where the arrival activity sits
+        // inside the last stop is a matter of reported times, which R does not model for required breaks: not judged here.
+        let mut arrival_position_unspecified = false;
+        if has_required && !last_is_arrival {
+            let last_stop = acts.last().map(|a| a.stop);
+            if acts.iter().any(|a| a.kind == "arrival" && Some(a.stop) == last_stop) {
+                last_is_arrival = true;
+                arrival_position_unspecified = true;
+                v.unspec("required-break-arrival-position-in-last-stop");
+            }
+        }
         if has_end != last_is_arrival {
             v.add(Prop::Conservation, "arrival-mismatch", format!("{ctx}: shift end defined = {has_end}, tour ends with arrival = {last_is_arrival}"));
         }
@@ -294,7 +306,7 @@ pub fn evaluate(problem: &api::Problem, matrices: &[api::Matrix], solution: &sol
         for (i, a) in acts.iter().enumerate() {
             match a.kind.as_str() {
                 "departure" | "arrival" => {
-                    if (a.kind == "departure") != (i == 0) || (a.kind == "arrival" && i != last_idx) {
+                    if (a.kind == "departure") != (i == 0) || (a.kind == "arrival" && i != last_idx && !arrival_position_unspecified) {
                         v.add(Prop::Conservation, "depot-activity-misplaced", format!("{ctx}: {} at position {i}", a.kind));
                     }
                     resolved.push(None);
@@ -331,6 +343,9 @@ pub fn evaluate(problem: &api::Problem, matrices: &[api::Matrix], solution: &sol
                                     breaks_left.remove(p);
                                     v.fact("required_break_assigned");
                                 }
+                                // more untagged break activities than required breaks defined: its own rule name, so that the
+                                // recorded finding about the writer (one reserved time reported in two stops) stays specific
+                                None if a.tag.is_none() && has_required => v.add(Prop::Conservation, "required-break-reported-twice", format!("{ctx}: more break activities than the required breaks defined for this vehicle shift (activity at stop {}, {}..{})", a.stop, a.start, a.end)),
                                 None => v.add(Prop::Conservation, "break-not-defined", format!("{ctx}: break activity (tag {:?}) does not correspond to a distinct break of this vehicle shift", a.tag)),
                             }
                             resolved.push(None);
